@@ -141,4 +141,172 @@ Proof.
   rewrite (byte_write_concat [concat chunks] w Hw). cbn [concat]. rewrite app_nil_r. reflexivity.
 Qed.
 
+(* ================= channel writer ================= *)
+
+Lemma cdrain_fold_compose {S R} (step : S -> block -> res S) bs (Hbs : 0 < bs)
+      (buf c d : list (list Z)) (e : S) (K : S -> list (list Z) -> res R) :
+  buf <> [] -> length c = length buf -> length d = length buf ->
+  (let '(cs1, r1) := cdrain bs (zip_app buf c) in
+   e1 <- fold_res step e cs1;;
+   let '(cs2, r2) := cdrain bs (zip_app r1 d) in
+   e2 <- fold_res step e1 cs2;; K e2 r2)
+  = (let '(cs, r) := cdrain bs (zip_app buf (zip_app c d)) in e' <- fold_res step e cs;; K e' r).
+Proof.
+  intros Hne Hc Hd.
+  rewrite <- zip_app_assoc by lia.
+  assert (La : length (zip_app buf c) = length buf) by (apply zip_app_length; lia).
+  rewrite (cdrain_app bs Hbs (zip_app buf c) d); [| |lia].
+  - destruct (cdrain bs (zip_app buf c)) as [cs1 r1]. destruct (cdrain bs (zip_app r1 d)) as [cs2 r2].
+    rewrite fold_res_app, bind_assoc. reflexivity.
+  - intros E. rewrite E in La. destruct buf; [congruence|discriminate].
+Qed.
+
+Definition uniform (c : list (list Z)) : Prop := exists m, Forall (fun x => length x = m) c.
+(* a well-formed argument of FlacChannelWriter::write: n channels of one length *)
+Definition chunk_ok (n : nat) (c : list (list Z)) : Prop := length c = n /\ uniform c.
+
+Definition cw_chan (w : cwriter) : nat := N.to_nat (si_channels (e_si (cw_enc w))).
+Definition cw_wf (w : cwriter) : Prop :=
+  0 < N.to_nat (cw_frame_sample_size w) /\ 0 < cw_chan w /\ length (cw_bufs w) = cw_chan w /\
+  has_short (N.to_nat (cw_frame_sample_size w)) (cw_bufs w) = true.
+
+Definition cw_set (w : cwriter) (e : encoder) (r : list (list Z)) : cwriter :=
+  {| cw_enc := e; cw_bufs := r; cw_channels := cw_channels w;
+     cw_frame_sample_size := cw_frame_sample_size w; cw_bytes_per_sample := cw_bytes_per_sample w |}.
+
+Lemma encoder_encode_channels e b e' :
+  encoder_encode enc_block p e b = Ok e' -> si_channels (e_si e') = si_channels (e_si e).
+Proof.
+  unfold encoder_encode. intros H.
+  apply bind_ok in H. destruct H as (wr & _ & H).
+  destruct (match si_total (e_si e) with Some t => (t <? wr)%N | None => false end); [discriminate|].
+  destruct (8 <? N.of_nat (length b))%N; [discriminate|].
+  apply bind_ok in H. destruct H as (bytes & _ & H).
+  apply bind_ok in H. destruct H as (cnt & _ & H). inversion H; subst; cbn.
+  unfold update_frame_sizes. destruct (_ && _ && _); reflexivity.
+Qed.
+
+Lemma channel_chunk_channels ch bytes e b e' :
+  channel_encode_chunk enc_block p ch bytes e b = Ok e' -> si_channels (e_si e') = si_channels (e_si e).
+Proof.
+  unfold channel_encode_chunk. intros H.
+  apply bind_ok in H. destruct H as (m & _ & H). apply bind_ok in H. destruct H as (f & _ & H).
+  apply encoder_encode_channels in H. exact H.
+Qed.
+
+Lemma fold_channels ch bytes : forall bl e e',
+  fold_res (channel_encode_chunk enc_block p ch bytes) e bl = Ok e' ->
+  si_channels (e_si e') = si_channels (e_si e).
+Proof.
+  induction bl as [|b bl IH]; intros e e' H; cbn [fold_res] in H.
+  - inversion H; reflexivity.
+  - apply bind_ok in H. destruct H as (e1 & H1 & H). apply IH in H. apply channel_chunk_channels in H1. congruence.
+Qed.
+
+Lemma uniform_no_mismatch first rest : uniform (first :: rest) ->
+  existsb (fun c => negb (length c =? length first)) rest = false.
+Proof.
+  intros [m F]. inversion F as [|? ? Hf Fr]; subst. clear F.
+  induction Fr as [|c r Hc Fr IH]; cbn [existsb]; [reflexivity|].
+  rewrite IH, Hc, Nat.eqb_refl. reflexivity.
+Qed.
+
+Lemma channel_write_eq w c : cw_wf w -> chunk_ok (cw_chan w) c ->
+  channel_write w c =
+  (let '(cs, r) := cdrain (N.to_nat (cw_frame_sample_size w)) (zip_app (cw_bufs w) c) in
+   e <- fold_res (channel_encode_chunk enc_block p (cw_channels w) (cw_bytes_per_sample w)) (cw_enc w) cs;;
+   Ok (cw_set w e r)).
+Proof.
+  intros (Hbs & Hn & Hl & Hs) [Lc Uc]. unfold Writers.channel_write.
+  destruct c as [|first rest]; [cbn in Lc; lia|].
+  unfold cw_chan in *.
+  replace (N.of_nat (length (first :: rest)) =? si_channels (e_si (cw_enc w)))%N with true
+    by (symmetry; apply N.eqb_eq; rewrite Lc; apply N2Nat.id).
+  rewrite (uniform_no_mismatch first rest Uc).
+  destruct (N.eqb_spec (cw_frame_sample_size w) 0) as [E|E]; [rewrite E in Hbs; cbn in Hbs; lia|].
+  reflexivity.
+Qed.
+
+Lemma channel_write_wf w c w' : cw_wf w -> chunk_ok (cw_chan w) c ->
+  channel_write w c = Ok w' -> cw_wf w' /\ cw_chan w' = cw_chan w /\
+  cw_frame_sample_size w' = cw_frame_sample_size w.
+Proof.
+  intros Hw Hc H. rewrite channel_write_eq in H by assumption.
+  destruct Hw as (Hbs & Hn & Hl & Hs). destruct Hc as [Lc Uc].
+  destruct (cdrain _ (zip_app (cw_bufs w) c)) as [cs r] eqn:D.
+  apply bind_ok in H. destruct H as (e & He & H). inversion H; subst.
+  apply fold_channels in He.
+  assert (Lz : length (zip_app (cw_bufs w) c) = cw_chan w) by (rewrite zip_app_length; lia).
+  apply cdrain_spec in D; auto.
+  2:{ intros E. rewrite E in Lz. cbn in Lz. lia. }
+  destruct D as (_ & _ & Lr & Sr).
+  unfold cw_wf, cw_chan, cw_set in *; cbn. rewrite He. repeat split; auto; lia.
+Qed.
+
+(* the per-channel concatenation of a list of write arguments *)
+Definition cconcat (n : nat) (chunks : list (list (list Z))) : list (list Z) :=
+  fold_right zip_app (repeat [] n) chunks.
+
+Lemma uniform_zip_app a : forall b, length a = length b -> uniform a -> uniform b -> uniform (zip_app a b).
+Proof.
+  intros b L [m Fa] [m' Fb]. exists (m + m'). revert b L Fb.
+  induction Fa as [|x a Hx Fa IH]; intros [|y b] L Fb; cbn in *; try lia; [constructor|].
+  inversion Fb; subst. constructor; [rewrite app_length; lia|]. apply IH; auto; lia.
+Qed.
+
+Lemma cconcat_ok n chunks : Forall (chunk_ok n) chunks -> chunk_ok n (cconcat n chunks).
+Proof.
+  induction 1 as [|c chunks [Lc Uc] F [Ll Ul]]; cbn [cconcat fold_right].
+  - split; [apply repeat_length|]. exists 0. apply Forall_forall. intros x Hx.
+    apply repeat_spec in Hx. subst. reflexivity.
+  - fold (cconcat n chunks). split; [rewrite zip_app_length; lia|].
+    apply uniform_zip_app; auto; lia.
+Qed.
+
+Lemma channel_write_concat : forall chunks w, cw_wf w -> Forall (chunk_ok (cw_chan w)) chunks ->
+  fold_res channel_write w chunks = channel_write w (cconcat (cw_chan w) chunks).
+Proof.
+  induction chunks as [|c chunks IH]; intros w Hw F.
+  - cbn [fold_res cconcat fold_right].
+    rewrite channel_write_eq; [|exact Hw|apply (cconcat_ok _ [])]; [|constructor].
+    destruct Hw as (Hbs & Hn & Hl & Hs).
+    rewrite <- Hl, zip_app_nil_r.
+    pose proof (cdrain_unique _ Hbs [] (cw_bufs w) (cw_chan w) Hn (Forall_nil _) Hl Hs) as E.
+    cbn [stack fold_right] in E. rewrite E. cbn. destruct w; reflexivity.
+  - inversion F as [|? ? Hc F']; subst. cbn [fold_res].
+    rewrite (bind_ext _ _ (fun w' => channel_write w' (cconcat (cw_chan w) chunks))).
+    2:{ intros w' E. destruct (channel_write_wf _ _ _ Hw Hc E) as (Hw' & En & _).
+        rewrite <- En. apply IH; auto. rewrite En. exact F'. }
+    pose proof (cconcat_ok _ _ F') as Hcc.
+    assert (Hcc' : chunk_ok (cw_chan w) (cconcat (cw_chan w) (c :: chunks))) by (apply cconcat_ok; exact F).
+    rewrite (channel_write_eq w c Hw Hc), (channel_write_eq w _ Hw Hcc').
+    destruct Hw as (Hbs & Hn & Hl & Hs). destruct Hc as [Lc Uc]. destruct Hcc as [Lcc Ucc].
+    cbn [cconcat fold_right]. fold (cconcat (cw_chan w) chunks).
+    rewrite <- (cdrain_fold_compose _ _ Hbs (cw_bufs w) c (cconcat (cw_chan w) chunks) (cw_enc w)
+                  (fun e r => Ok (cw_set w e r))); try lia.
+    2:{ intros E. rewrite E in Hl. cbn in Hl. lia. }
+    destruct (cdrain _ (zip_app (cw_bufs w) c)) as [cs1 r1] eqn:D. rewrite bind_assoc.
+    apply bind_ext. intros e1 He1. cbn [bind].
+    assert (Lz : length (zip_app (cw_bufs w) c) = cw_chan w) by (rewrite zip_app_length; lia).
+    apply cdrain_spec in D; auto.
+    2:{ intros E. rewrite E in Lz. cbn in Lz. lia. }
+    destruct D as (_ & _ & Lr & Sr). apply fold_channels in He1.
+    rewrite channel_write_eq.
+    + cbn [cw_set cw_bufs cw_enc cw_frame_sample_size cw_channels cw_bytes_per_sample]. reflexivity.
+    + unfold cw_wf, cw_chan, cw_set in *; cbn. rewrite He1. repeat split; auto; lia.
+    + unfold cw_chan, cw_set in *; cbn. rewrite He1. split; auto.
+Qed.
+
+Theorem channel_chunking w chunks : cw_wf w -> Forall (chunk_ok (cw_chan w)) chunks ->
+  channel_run w chunks = channel_run w [cconcat (cw_chan w) chunks].
+Proof.
+  intros Hw F. unfold Writers.channel_run. rewrite (channel_write_concat chunks w Hw F).
+  assert (F1 : Forall (chunk_ok (cw_chan w)) [cconcat (cw_chan w) chunks])
+    by (constructor; [apply cconcat_ok; exact F|constructor]).
+  rewrite (channel_write_concat [cconcat (cw_chan w) chunks] w Hw F1).
+  cbn [cconcat fold_right]. fold (cconcat (cw_chan w) chunks).
+  destruct (cconcat_ok _ _ F) as [L _].
+  set (cc := cconcat (cw_chan w) chunks) in *. rewrite <- L. rewrite zip_app_nil_r. reflexivity.
+Qed.
+
 End Proofs.
